@@ -395,6 +395,52 @@ fn c14_powf(ctx: &mut Ctx) {
 }
 
 
+/// Negative bases with the exponents people write for roots and rational powers: p/q as the f64
+/// quotient, as the double-double quotient (`TwoFloat::from(p) / q`), and their neighbours.
+/// Such a y is not an integer, so the result must be invalid - whatever shortcut recognises "1/3".
+fn c14_powf_fraction(ctx: &mut Ctx) {
+    let p = ctx.range(1, 9);
+    let q = ctx.range(2, 12);
+    let p = if ctx.flag() { -p } else { p };
+    let y = match ctx.below(4) {
+        0 => Dd::new(p as f64 / q as f64, 0.0),
+        1 | 2 => Dd::of(TwoFloat::from(p as f64) / TwoFloat::from(q as f64)),
+        _ => {
+            let d = Dd::of(TwoFloat::from(p as f64) / (q as f64));
+            let s = Dd::new(d.hi, step(d.lo, ctx.range(-2, 2)));
+            if s.valid() { s } else { d }
+        }
+    };
+    let x = match ctx.below(4) {
+        0 => Dd::new(-[8.0, 27.0, 2.0, 0.125, 64.0, 1000.0, 1.0, 4.0][ctx.below(8) as usize], 0.0),
+        1 => Dd::new(-(ctx.range(1, 1000) as f64), 0.0),
+        _ => {
+            let d = dd_exp(ctx, -30, 30, false);
+            if d.hi > 0.0 { d.neg() } else { d }
+        }
+    };
+    x.key(ctx);
+    y.key(ctx);
+    note_dd(ctx, "x", x);
+    note_dd(ctx, "y", y);
+    let vy = y.big();
+    let r = match guard(|| inh::powf(x.tf(), y.tf())) {
+        Ok(t) => Dd::of(t),
+        Err(m) => {
+            ctx.fail(format!("powf({}, {}) panicked: {m}", x.show(), y.show()));
+            return;
+        }
+    };
+    if vy.is_integer() {
+        // p/q happened to be whole (4/2 ...): the parity rule applies, checked elsewhere
+        ctx.out_of_domain();
+        return;
+    }
+    check!(ctx, !r.valid(), "powf of the negative {} with the non-integer exponent {} (~{}/{}) = {} should be invalid", x.show(), y.show(), p, q, r.show());
+    crate::p_forms::routes_agree(ctx, "powf", x, r);
+    ctx.set_nontrivial(true);
+}
+
 /// "For valid x no function of the family panics": ALL valid x (and y), far outside the ranges
 /// of the accuracy claims.  Besides the absence of a panic only C01's shape rule is asserted.
 fn c14_no_panic_total(ctx: &mut Ctx) {
@@ -571,6 +617,7 @@ pub fn c14() -> Property {
             g("exp2", c14_exp2, 300_000, 8_000_000),
             SubCheck { name: "exp2_integers", kind: Kind::Enumerated { n: 2045 }, eval: c14_exp2_int, quick: 0, thorough: 0 },
             g("no_panic_total", c14_no_panic_total, 400_000, 20_000_000),
+            g("powf_negative_base_fraction", c14_powf_fraction, 100_000, 3_000_000),
             SubCheck { name: "exp_grid", kind: Kind::Enumerated { n: 2 * (128 * 712) }, eval: c14_exp_grid, quick: 0, thorough: 0 },
             SubCheck { name: "exp2_grid", kind: Kind::Enumerated { n: 2 * 64 * 1000 }, eval: c14_exp2_grid, quick: 0, thorough: 0 },
             SubCheck { name: "exp_m1_grid", kind: Kind::Enumerated { n: 2 * 128 * 64 }, eval: c14_exp_m1_grid, quick: 0, thorough: 0 },
